@@ -12,10 +12,11 @@ import GoDcp.Driver.MinSeqNo
 import GoDcp.Driver.SrcFacts
 import GoDcp.Driver.MembershipPause
 import GoDcp.Driver.HaMembership
+import GoDcp.Driver.RmE2E
 /-! registry of all stateless handlers (one list per slice) -/
 namespace GoDcp.Driver
 
 def allHandlers : List (String × (List String → Option String → Option Out)) :=
-  pureHandlers ++ versionHandlers ++ rollbackHandlers ++ healthHandlers ++ keysHandlers ++ asyncOpHandlers ++ configHandlers ++ lifeHandlers ++ wireHandlers ++ membershipHandlers ++ minSeqNoHandlers ++ srcFactHandlers ++ membershipPauseHandlers ++ haMembershipHandlers
+  pureHandlers ++ versionHandlers ++ rollbackHandlers ++ healthHandlers ++ keysHandlers ++ asyncOpHandlers ++ configHandlers ++ lifeHandlers ++ wireHandlers ++ membershipHandlers ++ minSeqNoHandlers ++ srcFactHandlers ++ membershipPauseHandlers ++ haMembershipHandlers ++ rmE2EHandlers
 
 end GoDcp.Driver
